@@ -1131,6 +1131,292 @@ mod router_diff {
         4
     }
 
+    // ---- statement sequences incl. DDL and no-op writes, text routers with the query cache ON and OFF
+    // against direct engine calls; the same SELECT texts are repeated so that a cached answer is used
+    // whenever the router keeps one.
+    #[derive(Clone, Debug)]
+    pub enum St {
+        Create,
+        Drop,
+        CreateIndex(&'static str),
+        DropIndex(&'static str),
+        Insert(i64, Option<i64>, &'static str),
+        Update(i64, M),
+        Delete(M),
+        Select(String, Option<M>), // text after WHERE (None = no WHERE clause)
+    }
+    fn st_text(s: &St, _r: &mut Rng) -> String {
+        match s {
+            St::Create => "CREATE TABLE t (a INT NOT NULL, b INT, x TEXT NOT NULL)".into(),
+            St::Drop => "DROP TABLE t".into(),
+            St::CreateIndex(c) => format!("CREATE INDEX idx_{c} ON t ({c})"),
+            St::DropIndex(c) => format!("DROP INDEX ON t ({c})"),
+            St::Insert(a1, b1, x1) => match b1 {
+                Some(b1) => format!("INSERT INTO t (a, b, x) VALUES ({a1}, {b1}, '{x1}')"),
+                None => format!("INSERT INTO t (a, x) VALUES ({a1}, '{x1}')"),
+            },
+            St::Update(nv, e) => format!("UPDATE t SET b = {nv} WHERE {}", cond2_sql(e)),
+            St::Delete(e) => format!("DELETE FROM t WHERE {}", cond2_sql(e)),
+            St::Select(w, _) => {
+                if w.is_empty() {
+                    "SELECT * FROM t".into()
+                } else {
+                    format!("SELECT * FROM t WHERE {w}")
+                }
+            }
+        }
+    }
+    /// outcome of a statement, comparable between text and direct execution
+    fn direct(q: &QueryRouter, s: &St) -> String {
+        let e = q.relational();
+        let ok = |r: std::result::Result<(), String>| if r.is_ok() { "ok".to_string() } else { "err".to_string() };
+        match s {
+            St::Create => ok(e
+                .create_table(
+                    "t",
+                    Schema::new(vec![
+                        Column::new("a", ColumnType::Int),
+                        Column::new("b", ColumnType::Int).nullable(),
+                        Column::new("x", ColumnType::String),
+                    ]),
+                )
+                .map_err(|x| x.to_string())),
+            St::Drop => ok(e.drop_table("t").map_err(|x| x.to_string())),
+            St::CreateIndex(c) => ok(e.create_index("t", c).map_err(|x| x.to_string())),
+            St::DropIndex(c) => ok(e.drop_index("t", c).map_err(|x| x.to_string())),
+            St::Insert(a1, b1, x1) => {
+                let mut m = HashMap::new();
+                m.insert("a".to_string(), Value::Int(*a1));
+                if let Some(b1) = b1 {
+                    m.insert("b".to_string(), Value::Int(*b1));
+                }
+                m.insert("x".to_string(), Value::String((*x1).into()));
+                ok(e.insert("t", m).map(|_| ()).map_err(|x| x.to_string()))
+            }
+            St::Update(nv, c) => {
+                let mut m = HashMap::new();
+                m.insert("b".to_string(), Value::Int(*nv));
+                match e.update("t", to_cond2(c), m) {
+                    Ok(k) => format!("count {k}"),
+                    Err(_) => "err".into(),
+                }
+            }
+            St::Delete(c) => ok(e.delete_rows("t", to_cond2(c)).map(|_| ()).map_err(|x| x.to_string())),
+            St::Select(_, c) => {
+                let cond = c.as_ref().map(to_cond2).unwrap_or(Condition::True);
+                match e.select("t", cond) {
+                    Ok(rows) => format!("rows {:?}", canon(&rows)),
+                    Err(_) => "err".into(),
+                }
+            }
+        }
+    }
+    fn via_text(q: &QueryRouter, s: &St, sql: &str) -> String {
+        let res = guarded(AssertUnwindSafe(|| q.execute_parsed(sql).map_err(|e| e.to_string())));
+        match res {
+            Err(p) => format!("panic {p}"),
+            Ok(Err(_)) => "err".into(),
+            Ok(Ok(qr)) => match (s, qr) {
+                (St::Select(..), QueryResult::Rows(rows)) => format!("rows {:?}", canon(&rows)),
+                (St::Update(..), QueryResult::Count(k)) => format!("count {k}"),
+                (St::Select(..), other) | (St::Update(..), other) => format!("other {other:?}"),
+                _ => "ok".into(),
+            },
+        }
+    }
+    /// conditions of the cached runs: column a|b|x against literals, incl. string literals that differ
+    /// only in letter case and a literal no row has (777: the no-op writes)
+    fn lit2(c: u64) -> Value {
+        match c {
+            1 => Value::Int(1),
+            2 => Value::Int(2),
+            3 => Value::Int(777),
+            4 => Value::String("s".into()),
+            5 => Value::String("S".into()),
+            _ => Value::String(String::new()),
+        }
+    }
+    fn to_cond2(e: &M) -> Condition {
+        match e {
+            M::Bin(0, l, r) => Condition::Or(Box::new(to_cond2(l)), Box::new(to_cond2(r))),
+            M::Bin(1, l, r) => Condition::And(Box::new(to_cond2(l)), Box::new(to_cond2(r))),
+            M::Bin(op, l, r) => {
+                let (c, v) = match (&**l, &**r) {
+                    (M::Atom(c), M::Atom(v)) => (colname(*c), lit2(*v)),
+                    _ => unreachable!(),
+                };
+                match op {
+                    2 => Condition::Eq(c, v),
+                    3 => Condition::Ne(c, v),
+                    4 => Condition::Lt(c, v),
+                    5 => Condition::Le(c, v),
+                    6 => Condition::Gt(c, v),
+                    _ => Condition::Ge(c, v),
+                }
+            }
+            _ => unreachable!(),
+        }
+    }
+    fn lit2_sql(c: u64) -> &'static str {
+        match c {
+            1 => "1",
+            2 => "2",
+            3 => "777",
+            4 => "'s'",
+            5 => "'S'",
+            _ => "''",
+        }
+    }
+    fn cond2_sql(e: &M) -> String {
+        match e {
+            M::Bin(0, l, r) => format!("{} OR {}", cond2_sql(l), cond2_sql(r)),
+            M::Bin(1, l, r) => {
+                let p = |x: &M| if matches!(x, M::Bin(0, ..)) { format!("({})", cond2_sql(x)) } else { cond2_sql(x) };
+                format!("{} AND {}", p(l), p(r))
+            }
+            M::Bin(op, l, r) => match (&**l, &**r) {
+                (M::Atom(c), M::Atom(v)) => {
+                    format!("{} {} {}", colname(*c), ["=", "!=", "<", "<=", ">", ">="][(*op - 2) as usize], lit2_sql(*v))
+                }
+                _ => unreachable!(),
+            },
+            _ => unreachable!(),
+        }
+    }
+    fn leaf2(r: &mut Rng) -> M {
+        if r.chance(1, 3) {
+            M::Bin(*r.pick(&[2u64, 3]), a(103), Box::new(M::Atom(*r.pick(&[4u64, 5, 6]))))
+        } else {
+            M::Bin(r.range(2, 7), a(*r.pick(&[100u64, 101])), Box::new(M::Atom(*r.pick(&[1u64, 2, 3]))))
+        }
+    }
+    fn cond2(r: &mut Rng) -> M {
+        match r.below(4) {
+            0 => M::Bin(1, Box::new(leaf2(r)), Box::new(leaf2(r))),
+            1 => M::Bin(0, Box::new(leaf2(r)), Box::new(leaf2(r))),
+            _ => leaf2(r),
+        }
+    }
+    fn select_pool() -> Vec<St> {
+        let eq = |c: u64, v: u64| M::Bin(2, a(c), Box::new(M::Atom(v)));
+        let mut v = vec![St::Select(String::new(), None)];
+        for e in [eq(100, 1), eq(100, 3), eq(103, 4), eq(103, 5), M::Bin(6, a(101), Box::new(M::Atom(1))), M::Bin(0, Box::new(eq(100, 2)), Box::new(eq(103, 5)))] {
+            v.push(St::Select(cond2_sql(&e), Some(e)));
+        }
+        v
+    }
+    fn run_seq(seq: &[St], tag: &str, r: &mut Rng, dist: &mut Dist, hits: &mut Hits) -> usize {
+        let mut cached = QueryRouter::new();
+        cached.init_cache();
+        let plain = QueryRouter::new();
+        let reference = QueryRouter::new();
+        let mut trace: Vec<String> = vec![];
+        for (i, s) in seq.iter().enumerate() {
+            let sql = st_text(s, r);
+            trace.push(sql.clone());
+            let want = direct(&reference, s);
+            let got_c = via_text(&cached, s, &sql);
+            let got_p = via_text(&plain, s, &sql);
+            let dump = |q: &QueryRouter| match q.relational().select("t", Condition::True) {
+                Ok(rows) => format!("{:?}", canon(&rows)),
+                Err(_) => "no table".to_string(),
+            };
+            let (dc, dp, dr) = (dump(&cached), dump(&plain), dump(&reference));
+            dist.hit(match s {
+                St::Select(..) => "cached.select",
+                St::Create | St::Drop => "cached.table_ddl",
+                St::CreateIndex(_) | St::DropIndex(_) => "cached.index_ddl",
+                St::Insert(..) => "cached.insert",
+                St::Update(..) | St::Delete(_) => "cached.update_delete",
+            });
+            if want.starts_with("count 0") {
+                dist.hit("cached.noop_write");
+            }
+            let cmp_result = !matches!(s, St::Delete(_));
+            if (cmp_result && got_p != want) || dp != dr {
+                hits.push(
+                    "text-vs-direct",
+                    &format!("{tag}: statement {i} {sql:?} through execute_parsed (cache off) -> {got_p} / table {dp}; direct engine call -> {want} / table {dr}"),
+                    json!({"trace": trace.clone()}),
+                );
+                dist.hit("cached.differs.cache_off");
+                return i + 1;
+            }
+            if (cmp_result && got_c != want) || dc != dr {
+                hits.push(
+                    "text-vs-direct-cache-on",
+                    &format!("{tag}: statement {i} {sql:?} through execute_parsed with the query cache on -> {got_c}; direct engine call -> {want}; statements so far: {trace:?}"),
+                    json!({"trace": trace.clone()}),
+                );
+                dist.hit("cached.differs.cache_on");
+                return i + 1;
+            }
+        }
+        seq.len()
+    }
+    pub fn run_cached(r: &mut Rng, n_scen: usize, dist: &mut Dist, hits: &mut Hits) -> usize {
+        let pool = select_pool();
+        let sel = |i: usize| pool[i].clone();
+        let none_cond = M::Bin(2, a(100), Box::new(M::Atom(3))); // a = 777: matches nothing
+        let mut total = 0usize;
+        // corpus: DDL and no-op writes between two executions of the same SELECT text
+        let corpus: Vec<(&str, Vec<St>)> = vec![
+            ("corpus drop/recreate", vec![
+                St::Create, St::Insert(1, Some(2), "s"), St::Insert(2, None, "S"), sel(0), sel(1), St::Drop, sel(0), sel(1),
+                St::Create, sel(0), sel(1), St::Insert(1, Some(1), ""), sel(0), sel(1),
+            ]),
+            ("corpus no-op writes", vec![
+                St::Create, St::Insert(1, Some(2), "s"), sel(0), St::Update(5, none_cond.clone()), sel(0),
+                St::Delete(none_cond.clone()), sel(0), St::Insert(2, Some(2), "S"), sel(0), St::Update(9, M::Bin(2, a(100), Box::new(M::Atom(2)))), sel(0), sel(4),
+            ]),
+            ("corpus index ddl", vec![
+                St::Create, St::Insert(1, Some(2), "s"), St::Insert(2, Some(1), "S"), sel(1), sel(3), St::CreateIndex("a"), sel(1), St::CreateIndex("x"), sel(3), sel(4),
+                St::DropIndex("a"), sel(1), St::DropIndex("x"), sel(3), St::DropIndex("x"), sel(3),
+            ]),
+            ("corpus literal case", vec![
+                St::Create, St::Insert(1, Some(2), "s"), St::Insert(2, Some(2), "S"), sel(3), sel(4), sel(3), sel(6), sel(4),
+            ]),
+        ];
+        for (tag, seq) in &corpus {
+            total += run_seq(seq, tag, r, dist, hits);
+        }
+        for _ in 0..n_scen {
+            let mut seq = vec![St::Create];
+            let n = r.range(10, 26);
+            for _ in 0..n {
+                let k = r.below(100);
+                seq.push(if k < 42 {
+                    if r.chance(3, 4) {
+                        sel(r.below(pool.len() as u64) as usize)
+                    } else {
+                        let e = cond2(r);
+                        St::Select(cond2_sql(&e), Some(e))
+                    }
+                } else if k < 58 {
+                    St::Insert(*r.pick(&[1i64, 2, 42]), if r.chance(3, 4) { Some(*r.pick(&[1i64, 2])) } else { None }, *r.pick(&["s", "S", ""]))
+                } else if k < 68 {
+                    St::Update(*r.pick(&[1i64, 2, 5]), if r.chance(1, 2) { none_cond.clone() } else { cond2(r) })
+                } else if k < 76 {
+                    St::Delete(if r.chance(1, 2) { none_cond.clone() } else { cond2(r) })
+                } else if k < 84 {
+                    St::CreateIndex(*r.pick(&["a", "b", "x"]))
+                } else if k < 90 {
+                    St::DropIndex(*r.pick(&["a", "b", "x"]))
+                } else if k < 95 {
+                    St::Drop
+                } else {
+                    St::Create
+                });
+                if matches!(seq.last(), Some(St::Drop)) && r.chance(2, 3) {
+                    seq.push(sel(r.below(pool.len() as u64) as usize));
+                    seq.push(St::Create);
+                }
+            }
+            total += run_seq(&seq, "random", r, dist, hits);
+        }
+        total
+    }
+
     pub fn run(r: &mut Rng, n_scen: usize, dist: &mut Dist, hits: &mut Hits) -> usize {
         let mut total = corpus(hits, dist);
         for _ in 0..n_scen {
@@ -1253,6 +1539,18 @@ fn main() {
         child_main(f, start);
         return;
     }
+    if std::env::var("NV_CACHEPROBE").is_ok() {
+        let mut q = query_router::QueryRouter::new();
+        q.init_cache();
+        for sql in [
+            "NODE CREATE person {name: 'a'}", "NODE CREATE person {name: 'b'}", "NODE CREATE person {name: 'c'}",
+            "EDGE CREATE 1 -> 2 : knows", "NEIGHBORS 1 OUTGOING", "EDGE CREATE 1 -> 3 : knows", "NEIGHBORS 1 OUTGOING",
+            "PATH SHORTEST 1 TO 3", "EMBED STORE 'k1' [1.0, 0.0]", "SIMILAR [1.0, 0.0] LIMIT 5", "EMBED STORE 'k2' [0.9, 0.1]", "SIMILAR [1.0, 0.0] LIMIT 5",
+        ] {
+            println!("{sql} => {:?}", q.execute_parsed(sql).map_err(|e| e.to_string()));
+        }
+        return;
+    }
     quiet_panics();
     let mut rng = Rng::new(args.seed);
     let mut dist = Dist::default();
@@ -1355,7 +1653,8 @@ fn main() {
         hits.push(class, &format!("{what}; input {name}: {shown}"), json!({"name": name, "input_hex_file": file.to_string_lossy(), "line": i, "len": s.len()}));
         dist.hit(&format!("fuzz.hit.{class}"));
     }
-    let nrouter = router_diff::run(&mut rng, args.budget(60, 2000), &mut dist, &mut hits);
+    let nrouter = router_diff::run(&mut rng, args.budget(60, 2000), &mut dist, &mut hits)
+        + router_diff::run_cached(&mut rng, args.budget(120, 4000), &mut dist, &mut hits);
     let router_summary = json!({"kind": "router", "cases": nrouter, "distinct_nontrivial": nrouter, "distinct": nrouter});
     dist.add("fuzz.inputs", inputs.len() as u64);
     dist.add("fuzz.deep_corpus", ncorpus as u64);
